@@ -19,5 +19,5 @@ CONSTANTS
   Owner <- OwnQT
   AnyTurn = TRUE
 SPECIFICATION XFairSpec
-INVARIANTS XTypeOK PendingBound TypeOK RealSafe FindingStrict
+INVARIANTS XTypeOK PendingBound TypeOK RealSafe
 PROPERTIES Completes OpSeen TimerSeen
